@@ -27,10 +27,10 @@ var errIO = errors.New("injected-io-error")
 // ---------- iosizer ----------
 
 type faultyStream struct {
-	c       *core.Ctx
-	calls   int
-	sumRet  int
-	data    byte
+	c      *core.Ctx
+	calls  int
+	sumRet int
+	data   byte
 }
 
 func (f *faultyStream) op(p []byte, kind string) (int, error) {
@@ -124,18 +124,18 @@ func runSizer(c *core.Ctx) {
 // ---------- iocloser ----------
 
 type trackedStream struct {
-	c          *core.Ctx
-	w          *closerWorld
-	inFlight   int
-	calls      int
+	c        *core.Ctx
+	w        *closerWorld
+	inFlight int
+	calls    int
 }
 
 type closerWorld struct {
-	c            *core.Ctx
-	closeCalls   int
-	closeRet     int // stamp of the first return of Close
-	closeInv     int
-	lateCall     bool
+	c          *core.Ctx
+	closeCalls int
+	closeRet   int // stamp of the first return of Close
+	closeInv   int
+	lateCall   bool
 }
 
 func (t *trackedStream) op(p []byte) (int, error) {
@@ -273,20 +273,20 @@ func runCloser(c *core.Ctx) {
 
 // pipeEnd is one side of the proxy: what the proxy reads from it is `in`, what the proxy writes to it lands in `out`.
 type pipeEnd struct {
-	c        *core.Ctx
-	name     string
-	in       []byte // data still to be handed to the proxy's Read
-	eofReady bool   // the source has ended: Read returns EOF once `in` is drained
-	out      []byte
-	closed   int
-	readErrAt  int // inject a read error after this many Read calls (-1: never)
-	writeErrAt int
-	reads, writes int
-	eofGiven bool
-	eofStamp int
-	firstCloseStamp int
+	c                     *core.Ctx
+	name                  string
+	in                    []byte // data still to be handed to the proxy's Read
+	eofReady              bool   // the source has ended: Read returns EOF once `in` is drained
+	out                   []byte
+	closed                int
+	readErrAt             int // inject a read error after this many Read calls (-1: never)
+	writeErrAt            int
+	reads, writes         int
+	eofGiven              bool
+	eofStamp              int
+	firstCloseStamp       int
 	readFault, writeFault bool
-	sent     []byte // everything that was ever queued in `in`
+	sent                  []byte // everything that was ever queued in `in`
 }
 
 func (p *pipeEnd) Read(b []byte) (int, error) {
